@@ -470,6 +470,86 @@ theorem reduceFold_par (o : Order) (n : Nat) {gens : List (BPoly α)} (hg : AllM
     | none => exact ⟨rfl, fun _ h => by cases h⟩
     | some r => exact ⟨rfl, fun l h => by cases h; exact (hacc gs rfl).set i (hv r hr)⟩
 
+
+theorem reduceBasis_par (o : Order) {id : Ideal α} (hid : AllMM V id.gens) :
+    id.reduceBasis F' o = id.reduceBasis F o ∧ IdRes V (id.reduceBasis F o) := by
+  unfold Ideal.reduceBasis
+  obtain ⟨e, hv⟩ := isGroebnerQ_par hA hC o hid
+  rw [e]
+  cases hq : id.isGroebnerQ F o with
+  | none => exact ⟨rfl, fun r h => by cases h⟩
+  | some idb =>
+    obtain ⟨id', b⟩ := idb
+    have hid' : AllMM V id'.gens := hv _ hq
+    cases b
+    · exact ⟨rfl, fun r h => by cases h; exact hid'⟩
+    · obtain ⟨e2, hv2⟩ := minimizeBasis_par hA hC o hid'
+      dsimp only
+      rw [e2]
+      have hM : ∀ idm, (if id'.isMinimal ≠ 1 then (id'.minimizeBasis F o).map (·.1) else some id')
+          = some idm → AllMM V idm.gens := by
+        intro idm hm
+        split at hm
+        · cases hmb : id'.minimizeBasis F o with
+          | none => rw [hmb] at hm; cases hm
+          | some r => rw [hmb] at hm; cases hm; exact hv2 r hmb
+        · cases hm; exact hid'
+      generalize (if id'.isMinimal ≠ 1 then (id'.minimizeBasis F o).map (·.1) else some id') = idM
+        at hM ⊢
+      cases idM with
+      | none => exact ⟨rfl, fun r h => by cases h⟩
+      | some idm =>
+        obtain ⟨e3, hv3⟩ := reduceFold_par hA hC o idm.gens.length (hM idm rfl)
+        dsimp only
+        erw [e3]
+        refine ⟨rfl, fun r h => ?_⟩
+        revert h
+        generalize (List.range idm.gens.length).foldl _ (some idm.gens) = res at hv3
+        intro h
+        cases res with
+        | none => cases h
+        | some gs => cases h; exact hv3 gs rfl
+
+theorem isReducedQ_par (o : Order) {id : Ideal α} (hid : AllMM V id.gens) :
+    id.isReducedQ F' o = id.isReducedQ F o ∧ IdRes V (id.isReducedQ F o) := by
+  unfold Ideal.isReducedQ
+  obtain ⟨e, hv⟩ := isMinimalQ_par hA hC o hid
+  rw [e]
+  split
+  · exact ⟨rfl, fun r h => by cases h; exact hid⟩
+  · split
+    · exact ⟨rfl, fun r h => by cases h; exact hid⟩
+    · cases hq : id.isMinimalQ F o with
+      | none => exact ⟨rfl, fun r h => by cases h⟩
+      | some idb =>
+        obtain ⟨id', b⟩ := idb
+        have hid' : AllMM V id'.gens := hv _ hq
+        cases b
+        · exact ⟨rfl, fun r h => by cases h; exact hid'⟩
+        · have e2 : (fun i => (remByOthers F' o id'.gens i).map fun r => equal F' r (id'.gens.getD i []))
+              = (fun i => (remByOthers F o id'.gens i).map fun r => equal F r (id'.gens.getD i [])) :=
+            funext fun i => by
+              rw [(remByOthers_par hA hC o hid' i).1]
+              simp only [equal_congr hA]
+          dsimp only
+          rw [e2]
+          split
+          · exact ⟨rfl, fun r h => by cases h⟩
+          · exact ⟨rfl, fun r h => by cases h; exact hid'⟩
+
+theorem quotientGens_congr (o : Order) {id : Ideal α} (hid : AllMM V id.gens) :
+    quotientGens F' o id = quotientGens F o id := by
+  unfold quotientGens
+  obtain ⟨e, hv⟩ := groebnerBasis_par hA hC o hid
+  rw [e]
+  split
+  · rfl
+  · cases hg : id.groebnerBasis F o with
+    | none => rfl
+    | some gb =>
+      dsimp only
+      rw [(reduceBasis_par hA hC o (hv gb hg)).1]
+
 end Groebner
 end B
 end Tables
